@@ -831,8 +831,598 @@ Proof.
       split; [|split; [|split]].
       * eapply nth_pres in N1; [|exact P13]. eapply nth_upd_some in N1. get_st HT N1.
       * eapply nth_pres in N2; [|split; [exact A3|exact B3]].
-        rewrite <- L1. eexists. split; [|cbn; auto].
-        rewrite HT by lia. rewrite nth_upd_ne by lia. exact N2.
+        rewrite <- L1. eexists. split; [rewrite HT by lia; rewrite nth_upd_ne by lia; exact N2|cbn; auto].
       * rewrite <- L1, <- L2. apply F3. eapply agree_upd; [exact HT|lia|lia|lia].
       * rewrite L1. reflexivity.
 Qed.
+
+Definition compile_item (cb : bool -> nat -> cenv -> option nat * cenv) (it : rep_item) (n2 : nat) (e : cenv)
+  : option nat * cenv :=
+  match it with
+  | RCopy s => cb s n2 e
+  | ROptc s =>
+      let '(m2, e) := alloc (eps_state (Some n2)) e in
+      let '(body, e) := cb s m2 e in
+      let '(id, e) := alloc (fork_state body (Some n2)) e in
+      (Some id, e)
+  | RStarc =>
+      let '(k2, e) := alloc (fork_state (Some n2) None) e in
+      let '(m2, e) := alloc (eps_state (Some k2)) e in
+      let '(body, e) := cb true m2 e in
+      let '(k1, e) := alloc (fork_state body (Some k2)) e in
+      (Some k1, patch2 k2 (Some k1) e)
+  end.
+
+Lemma compile_items_cons cb it rest next e :
+  compile_items cb (it :: rest) next e =
+  let '(n2, e) := alloc (eps_state None) e in
+  let '(n1, e) := compile_item cb it n2 e in
+  let '(n3, e) := compile_items cb rest next e in
+  (n1, patch1 n2 n3 e).
+Proof. reflexivity. Qed.
+
+Section ItemsOK.
+Variable B : list state -> bodyp.
+Variable cb : bool -> nat -> cenv -> option nat * cenv.
+Hypothesis Hcb : forall sb, CompOK B (cb sb).
+
+Lemma compile_item_ok it : CompOK (fun T => ItemFrag T (B T) it) (compile_item cb it).
+Proof.
+  destruct it as [sb|sb|]; intros nx e en e'; cbn [compile_item].
+  - apply Hcb.
+  - destruct (alloc (eps_state (Some nx)) e) as [m2 e1] eqn:E1. destruct (cb sb m2 e1) as [body e2] eqn:E2.
+    destruct (alloc (fork_state body (Some nx)) e2) as [id e3] eqn:E3. intros H. injection H as <- <-.
+    apply alloc_inv in E1. destruct E1 as (-> & L1 & P1 & N1).
+    apply Hcb in E2. destruct E2 as [P2 F2].
+    apply alloc_inv in E3. destruct E3 as (-> & L3 & P3 & N3).
+    assert (L2 : len e1 <= len e2) by apply P2.
+    split; [eapply pres_trans; [exact P1|eapply pres_trans; eauto]|].
+    intros T HT. cbn [ItemFrag]. exists body, (len e2).
+    split; [|split; [|split; [|split]]].
+    + eapply nth_pres in N1; [|eapply pres_trans; [exact P2|exact P3]]. get_st HT N1.
+    + rewrite <- L1. apply F2. eapply agree_sub; [exact HT|exact P3|lia|lia|lia].
+    + get_st HT N3.
+    + exact L3.
+    + reflexivity.
+  - destruct (alloc (fork_state (Some nx) None) e) as [k2 e1] eqn:E1.
+    destruct (alloc (eps_state (Some k2)) e1) as [m2 e2] eqn:E2.
+    destruct (cb true m2 e2) as [body e3] eqn:E3.
+    destruct (alloc (fork_state body (Some k2)) e3) as [k1 e4] eqn:E4. intros H. injection H as <- <-.
+    apply alloc_inv in E1. destruct E1 as (-> & L1 & P1 & N1).
+    apply alloc_inv in E2. destruct E2 as (-> & L2 & P2 & N2).
+    apply Hcb in E3. destruct E3 as [P3 F3].
+    apply alloc_inv in E4. destruct E4 as (-> & L4 & P4 & N4).
+    assert (L3 : len e2 <= len e3) by apply P3.
+    assert (P14 : pres (e_tb e1) (e_tb e4)) by (eapply pres_trans; [exact P2|eapply pres_trans; eauto]).
+    assert (P24 : pres (e_tb e2) (e_tb e4)) by (eapply pres_trans; eauto).
+    cbn [patch2 e_tb]. rewrite length_upd.
+    split; [apply pres_upd; [lia|]; eapply pres_trans; [exact P1|exact P14]|].
+    intros T HT. cbn [ItemFrag]. exists body, (len e3).
+    split; [|split; [|split; [|split; [|split]]]].
+    + eapply nth_pres in N1; [|exact P14]. eapply nth_upd_some in N1. get_st HT N1.
+    + eapply nth_pres in N2; [|exact P24]. rewrite <- L1.
+      eexists. split; [rewrite HT by lia; rewrite nth_upd_ne by lia; exact N2|cbn; auto].
+    + rewrite <- L1, <- L2. apply F3. eapply agree_sub; [|exact P4|..].
+      * eapply (agree_upd T _ _ _ _ _ (len e2) (len e3) HT); lia.
+      * lia.
+      * lia.
+      * lia.
+    + eexists. split; [rewrite HT by lia; rewrite nth_upd_ne by lia; exact N4|cbn; auto].
+    + exact L4.
+    + reflexivity.
+Qed.
+
+Lemma compile_items_ok items : CompOK (fun T => FragItems T (B T) items) (compile_items cb items).
+Proof.
+  induction items as [|it rest IH]; intros next e en e'.
+  - cbn [compile_items]. intros H. injection H as <- <-. split; [apply pres_refl|].
+    intros T HT. cbn [FragItems]. auto.
+  - rewrite compile_items_cons.
+    destruct (alloc (eps_state None) e) as [n2 e1] eqn:E1. destruct (compile_item cb it n2 e1) as [n1 e2] eqn:E2.
+    destruct (compile_items cb rest next e2) as [n3 e3] eqn:E3. intros H. injection H as <- <-.
+    apply alloc_inv in E1. destruct E1 as (-> & L1 & P1 & N1).
+    apply compile_item_ok in E2. destruct E2 as [P2 F2].
+    apply IH in E3. destruct E3 as [P3 F3].
+    assert (L2 : len e1 <= len e2) by apply P2. assert (L3 : len e2 <= len e3) by apply P3.
+    assert (P13 : pres (e_tb e1) (e_tb e3)) by (eapply pres_trans; eauto).
+    cbn [patch1 e_tb]. rewrite length_upd.
+    split; [apply pres_upd; [lia|]; eapply pres_trans; eauto|].
+    intros T HT. cbn [FragItems]. exists n3, (len e2).
+    split; [|split].
+    + eapply nth_pres in N1; [|exact P13]. eapply nth_upd_some in N1. get_st HT N1.
+    + rewrite <- L1. apply F2. eapply agree_sub; [|exact P3|..].
+      * eapply (agree_upd T _ _ _ _ _ (len e1) (len e2) HT); lia.
+      * lia.
+      * lia.
+      * lia.
+    + apply F3. eapply agree_upd; [exact HT|lia|lia|lia].
+Qed.
+End ItemsOK.
+
+Lemma compile_alt a b ci nocap next e :
+  compile (XAlt a b) ci nocap next e =
+  if is_cset (XAlt a b) then
+    let '(id, e) := alloc (char_state ci (cset_of (XAlt a b)) next) e in (Some id, e)
+  else if is_fail b then compile a ci nocap next e
+  else
+    let '(n1, e) := compile a ci nocap next e in
+    let '(n2, e) := compile b ci nocap next e in
+    let '(id, e) := alloc (fork_state n1 n2) e in
+    (Some id, e).
+Proof. destruct b; reflexivity. Qed.
+
+Ltac dal n e E := match goal with |- context [alloc ?st ?e0] => destruct (alloc st e0) as [n e] eqn:E end.
+Ltac ainv E L P N := apply alloc_inv in E; cbn [e_tb] in E; destruct E as (-> & L & P & N).
+Ltac get_ne HT Hn := eexists; split; [rewrite HT by lia; rewrite nth_upd_ne by lia; exact Hn|cbn; auto].
+
+Lemma compile_ok x : forall ci nocap, CompOK (fun T => Frag T x ci) (compile x ci nocap).
+Proof.
+  induction x as [| |cs|l|a IHa b IHb|a IHa b IHb|a IHa|g a IHa|a IHa|g a IHa|g m n a IHa|a IHa|a IHa|a IHa|a IHa|k|a IHa|a IHa];
+    intros ci nocap next e en e'.
+  - (* XEps *) cbn [compile]. intros H. injection H as <- <-. split; [apply pres_refl|].
+    intros T HT. cbn [Frag]. auto.
+  - (* XFail *) cbn [compile]. intros H. injection H as <- <-. split; [apply pres_refl|].
+    intros T HT. cbn [Frag]. auto.
+  - (* XChr *) cbn [compile]. dal qid e1 E1. intros H. injection H as <- <-. ainv E1 L1 P1 N1.
+    split; [exact P1|]. intros T HT. cbn [Frag]. split; [get_st HT N1|]. split; [reflexivity|exact L1].
+  - (* XStr *) cbn [compile]. apply compile_chars_ok.
+  - (* XSeq *) cbn [compile]. dal n2 e1 E1.
+    destruct (compile a ci nocap n2 e1) as [n1 e2] eqn:E2.
+    destruct (compile b ci nocap next e2) as [n3 e3] eqn:E3. intros H. injection H as <- <-.
+    ainv E1 L1 P1 N1. apply IHa in E2. destruct E2 as [P2 F2]. apply IHb in E3. destruct E3 as [P3 F3].
+    assert (L2 : len e1 <= len e2) by apply P2. assert (L3 : len e2 <= len e3) by apply P3.
+    assert (P13 : pres (e_tb e1) (e_tb e3)) by (eapply pres_trans; eauto).
+    cbn [patch1 e_tb]. rewrite length_upd.
+    split; [apply pres_upd; [lia|]; eapply pres_trans; eauto|].
+    intros T HT. cbn [Frag]. exists n3, (len e2). split; [|split].
+    + eapply nth_pres in N1; [|exact P13]. eapply nth_upd_some in N1. get_st HT N1.
+    + rewrite <- L1. apply F2. eapply agree_sub; [|exact P3|..].
+      * eapply (agree_upd T _ _ _ _ _ (len e1) (len e2) HT); lia.
+      * lia.
+      * lia.
+      * lia.
+    + apply F3. eapply agree_upd; [exact HT|lia|lia|lia].
+  - (* XAlt *) rewrite compile_alt. cbn [Frag]. destruct (is_cset (XAlt a b)).
+    + dal qid e1 E1. intros H. injection H as <- <-. ainv E1 L1 P1 N1.
+      split; [exact P1|]. intros T HT. split; [get_st HT N1|]. split; [reflexivity|exact L1].
+    + destruct (is_fail b); [apply IHa|].
+      destruct (compile a ci nocap next e) as [n1 e1] eqn:E1.
+      destruct (compile b ci nocap next e1) as [n2 e2] eqn:E2.
+      dal qid e3 E3. intros H. injection H as <- <-.
+      apply IHa in E1. destruct E1 as [P1 F1]. apply IHb in E2. destruct E2 as [P2 F2]. ainv E3 L3 P3 N3.
+      assert (L1 : len e <= len e1) by apply P1. assert (L2 : len e1 <= len e2) by apply P2.
+      split; [eapply pres_trans; [exact P1|eapply pres_trans; eauto]|].
+      intros T HT. exists n1, n2, (len e1), (len e2). split; [|split; [|split; [|split]]].
+      * apply F1. eapply agree_sub; [exact HT|eapply pres_trans; eauto|lia|lia|lia].
+      * apply F2. eapply agree_sub; [exact HT|exact P3|lia|lia|lia].
+      * get_st HT N3.
+      * exact L3.
+      * reflexivity.
+  - (* XBar *) cbn [compile Frag]. apply IHa.
+  - (* XStar *) cbn [compile]. dal n2 e1 E1.
+    destruct (compile a ci nocap n2 e1) as [body e2] eqn:E2.
+    dal n1 e3 E3. intros H. injection H as <- <-.
+    ainv E1 L1 P1 N1. apply IHa in E2. destruct E2 as [P2 F2]. ainv E3 L3 P3 N3.
+    assert (L2 : len e1 <= len e2) by apply P2.
+    assert (P13 : pres (e_tb e1) (e_tb e3)) by (eapply pres_trans; eauto).
+    cbn [patch2 e_tb]. rewrite length_upd.
+    split; [apply pres_upd; [lia|]; eapply pres_trans; eauto|].
+    intros T HT. cbn [Frag]. exists body, (len e2). split; [|split; [|split; [|split]]].
+    + eapply nth_pres in N1; [|exact P13]. eapply nth_upd_some in N1. get_st HT N1.
+    + rewrite <- L1. apply F2. eapply agree_sub; [|exact P3|..].
+      * eapply (agree_upd T _ _ _ _ _ (len e1) (len e2) HT); lia.
+      * lia.
+      * lia.
+      * lia.
+    + get_ne HT N3.
+    + exact L3.
+    + reflexivity.
+  - (* XPlus *) cbn [compile]. dal n2 e1 E1.
+    destruct (compile a ci nocap n2 e1) as [n1 e2] eqn:E2. intros H. injection H as <- <-.
+    ainv E1 L1 P1 N1. apply IHa in E2. destruct E2 as [P2 F2].
+    assert (L2 : len e1 <= len e2) by apply P2.
+    cbn [patch2 e_tb]. rewrite length_upd.
+    split; [apply pres_upd; [lia|]; eapply pres_trans; eauto|].
+    intros T HT. cbn [Frag]. split.
+    + eapply nth_pres in N1; [|exact P2]. eapply nth_upd_some in N1. get_st HT N1.
+    + rewrite <- L1. apply F2. eapply (agree_upd T _ _ _ _ _ (len e1) (len e2) HT); lia.
+  - (* XOpt *) cbn [compile].
+    destruct (compile a ci nocap next e) as [body e1] eqn:E1. dal qid e2 E2. intros H. injection H as <- <-.
+    apply IHa in E1. destruct E1 as [P1 F1]. ainv E2 L2 P2 N2.
+    assert (L1 : len e <= len e1) by apply P1.
+    split; [eapply pres_trans; eauto|].
+    intros T HT. cbn [Frag]. exists body, (len e1). split; [|split; [|split]].
+    + apply F1. eapply agree_sub; [exact HT|exact P2|lia|lia|lia].
+    + get_st HT N2.
+    + exact L2.
+    + reflexivity.
+  - (* XRep *) cbn [compile Frag].
+    apply (compile_items_ok (fun T => Frag T a ci) (fun subs k e => compile a ci (nocap || negb subs) k e)).
+    intros sb nx e0 en0 e0'. apply IHa.
+  - (* XSub *) cbn [compile]. destruct nocap.
+    { intros H. apply IHa in H. destruct H as [P F]. split; [exact P|]. intros T HT. cbn [Frag]. left. apply F. exact HT. }
+    dal n3 e1 E1. destruct (compile a ci false n3 e1) as [n2 e2] eqn:E2. dal n1 e3 E3.
+    intros H. injection H as <- <-.
+    ainv E1 L1 P1 N1. apply IHa in E2. destruct E2 as [P2 F2]. ainv E3 L3 P3 N3.
+    assert (L2 : len e1 <= len e2) by apply P2.
+    match goal with |- context [if ngs a then ?A else ?B] =>
+      assert (TE : e_tb (if ngs a then A else B) = e_tb e3) by (destruct (ngs a); reflexivity); rewrite !TE end.
+    split; [eapply pres_trans; [exact P1|eapply pres_trans; eauto]|].
+    intros T HT. cbn [Frag]. right. exists n2, (len e2). split; [|split; [|split; [|split]]].
+    + eapply nth_pres in N1; [|eapply pres_trans; eauto]. get_st HT N1.
+    + rewrite <- L1. apply F2. eapply agree_sub; [exact HT|exact P3|lia|lia|lia].
+    + get_st HT N3.
+    + exact L3.
+    + reflexivity.
+  - (* XNamed *) cbn [compile]. destruct nocap.
+    { intros H. apply IHa in H. destruct H as [P F]. split; [exact P|]. intros T HT. cbn [Frag]. left. apply F. exact HT. }
+    dal n3 e1 E1. destruct (compile a ci false n3 e1) as [n2 e2] eqn:E2. dal n1 e3 E3.
+    intros H. injection H as <- <-.
+    ainv E1 L1 P1 N1. apply IHa in E2. destruct E2 as [P2 F2]. ainv E3 L3 P3 N3.
+    assert (L2 : len e1 <= len e2) by apply P2.
+    match goal with |- context [if ngs a then ?A else ?B] =>
+      assert (TE : e_tb (if ngs a then A else B) = e_tb e3) by (destruct (ngs a); reflexivity); rewrite !TE end.
+    split; [eapply pres_trans; [exact P1|eapply pres_trans; eauto]|].
+    intros T HT. cbn [Frag]. right. exists n2, (len e2). split; [|split; [|split; [|split]]].
+    + eapply nth_pres in N1; [|eapply pres_trans; eauto]. get_st HT N1.
+    + rewrite <- L1. apply F2. eapply agree_sub; [exact HT|exact P3|lia|lia|lia].
+    + get_st HT N3.
+    + exact L3.
+    + reflexivity.
+  - (* XNoCap *) cbn [compile Frag]. apply IHa.
+  - (* XWord *) cbn [compile]. dal n2e e1 E1. dal ne e2 E2.
+    destruct (compile a ci nocap ne e2) as [nb e3] eqn:E3. dal n2b e4 E4. dal n1 e5 E5.
+    intros H. injection H as <- <-.
+    ainv E1 L1 P1 N1. ainv E2 L2 P2 N2. apply IHa in E3. destruct E3 as [P3 F3].
+    ainv E4 L4 P4 N4. ainv E5 L5 P5 N5.
+    assert (L3 : len e2 <= len e3) by apply P3.
+    assert (P35 : pres (e_tb e3) (e_tb e5)) by (eapply pres_trans; eauto).
+    assert (P25 : pres (e_tb e2) (e_tb e5)) by (eapply pres_trans; eauto).
+    assert (P15 : pres (e_tb e1) (e_tb e5)) by (eapply pres_trans; eauto).
+    split; [eapply pres_trans; eauto|].
+    intros T HT. cbn [Frag]. exists nb, (len e3).
+    split; [|split; [|split; [|split; [|split; [|split]]]]].
+    + eapply nth_pres in N1; [|exact P15]. get_st HT N1.
+    + eapply nth_pres in N2; [|exact P25]. rewrite <- L1. get_st HT N2.
+    + rewrite <- L1, <- L2. apply F3. eapply agree_sub; [exact HT|exact P35|lia|lia|lia].
+    + eapply nth_pres in N4; [|exact P5]. get_st HT N4.
+    + rewrite <- L4. get_st HT N5.
+    + lia.
+    + rewrite L4. reflexivity.
+  - (* XAnc *) cbn [compile]. dal qid e1 E1. intros H. injection H as <- <-. ainv E1 L1 P1 N1.
+    split; [exact P1|]. intros T HT. cbn [Frag]. split; [get_st HT N1|]. split; [reflexivity|exact L1].
+  - (* XNoCase *) cbn [compile Frag]. apply IHa.
+  - (* XCase *) cbn [compile Frag]. apply IHa.
+Qed.
+
+(* ------------------------------------------------------------------------------------------ *)
+(** * The language does not depend on the submatch bookkeeping flag *)
+
+Lemma seq_ext (P P' Q Q' : lang) :
+  (forall p t n, P p t n <-> P' p t n) -> (forall p t n, Q p t n <-> Q' p t n) ->
+  forall p t n,
+    (exists s1 s2, t = s1 ++ s2 /\ P p s1 (firstc s2 n) /\ Q (lastc p s1) s2 n) <->
+    (exists s1 s2, t = s1 ++ s2 /\ P' p s1 (firstc s2 n) /\ Q' (lastc p s1) s2 n).
+Proof.
+  intros EP EQ p t n. split; intros (s1 & s2 & E & H1 & H2); exists s1, s2;
+    (split; [exact E|split; [apply EP; exact H1|apply EQ; exact H2]]).
+Qed.
+
+Lemma LPow_mono (P Q : lang) : (forall p t n, P p t n -> Q p t n) ->
+  forall k p t n, LPow P k p t n -> LPow Q k p t n.
+Proof.
+  intros H. induction k as [|k IH]; cbn [LPow]; [auto|].
+  intros p t n (s1 & s2 & E & H1 & H2). exists s1, s2. auto.
+Qed.
+
+Lemma to_sre_nocap x : forall nocap ci p t n, L ci (to_sre nocap x) p t n <-> L ci (to_sre true x) p t n.
+Proof.
+  induction x as [| |cs|l|a IHa b IHb|a IHa b IHb|a IHa|g a IHa|a IHa|g a IHa|g m n a IHa|a IHa|a IHa|a IHa|a IHa|k|a IHa|a IHa];
+    intros nocap ci p t n0; cbn [to_sre]; try reflexivity.
+  - cbn [L]. apply (seq_ext (L ci (to_sre nocap a)) (L ci (to_sre true a)) (L ci (to_sre nocap b)) (L ci (to_sre true b)));
+      intros; [apply IHa|apply IHb].
+  - cbn [L]. rewrite (IHa nocap), (IHb nocap). reflexivity.
+  - apply IHa.
+  - cbn [L]. apply LStar_ext. intros. apply IHa.
+  - cbn [L]. split; intros (k & Hk & H); exists k; (split; [exact Hk|]); eapply LPow_mono; try exact H;
+      intros p' t' n'; apply IHa.
+  - cbn [L]. rewrite (IHa nocap). reflexivity.
+  - cbn [L]. destruct n as [nn|]; split; intros (k & Hk & H); exists k; (split; [exact Hk|]); eapply LPow_mono; try exact H;
+      intros p' t' n'; apply IHa.
+  - destruct nocap; cbn [L]; [reflexivity|apply IHa].
+  - destruct nocap; cbn [L]; [reflexivity|apply IHa].
+  - cbn [L].
+    apply (seq_ext (L ci (Anc Bow)) (L ci (Anc Bow)) (L ci (Seq (to_sre nocap a) (Anc Eow))) (L ci (Seq (to_sre true a) (Anc Eow))));
+      intros; [reflexivity|].
+    cbn [L]. apply (seq_ext (L ci (to_sre nocap a)) (L ci (to_sre true a)) (L ci (Anc Eow)) (L ci (Anc Eow)));
+      intros; [apply IHa|reflexivity].
+  - cbn [L]. apply IHa.
+  - cbn [L]. apply IHa.
+Qed.
+
+(* ------------------------------------------------------------------------------------------ *)
+(** * The whole regexp *)
+
+Lemma compile_top_shape x :
+  exists n2 h, n_start (compile_top x) = h /\ 2 <= h /\
+    nth_error (n_tb (compile_top x)) 0 = Some (mkState KAccept None RNone None None) /\
+    is_eps (n_tb (compile_top x)) 1 (Some 0) None /\
+    is_eps (n_tb (compile_top x)) h n2 None /\
+    Frag (n_tb (compile_top x)) x false 1 n2 2 h.
+Proof.
+  remember (compile_top x) as N eqn:EN. unfold compile_top, alloc in EN.
+  cbn [e_tb length app e_nsub e_ngi] in EN.
+  match type of EN with context [compile x false false 1 ?e0] =>
+    set (e2 := e0) in EN; destruct (compile x false false 1 e2) as [n2 e3] eqn:E3 end.
+  subst N. cbn [n_start n_tb e_tb].
+  apply compile_ok in E3. destruct E3 as [[A3 B3] F3]. cbn [e2 e_tb length] in A3, B3, F3.
+  exists n2, (len e3). split; [reflexivity|]. split; [exact A3|].
+  split; [|split; [|split]].
+  - rewrite nth_error_app1 by lia. rewrite B3 by lia. reflexivity.
+  - eexists. split; [rewrite nth_error_app1 by lia; rewrite B3 by lia; reflexivity|cbn; auto].
+  - eexists. split; [rewrite nth_error_app2 by lia; rewrite Nat.sub_diag; reflexivity|cbn; auto].
+  - apply F3. intros q Hq. apply nth_error_app1. lia.
+Qed.
+
+Lemma Lat_whole (P : lang) s : Lat s P 0 (length s) <-> P None s None.
+Proof.
+  split.
+  - intros (a & b & c & E & Ha & Hb & H). destruct a; [|discriminate Ha]. cbn [app length] in *.
+    assert (c = []) as ->.
+    { rewrite E, app_length in Hb. destruct c; [reflexivity|cbn [length] in Hb; lia]. }
+    rewrite app_nil_r in E. subst b. exact H.
+  - intros H. exists [], s, []. cbn [app length]. rewrite app_nil_r. auto.
+Qed.
+
+(** every string of the language has an accepting path: completeness of the graph *)
+Theorem compile_top_language_implies_path : forall x s, wf_x x = true ->
+  L false (to_sre false x) None s None -> accepts_path (compile_top x) s.
+Proof.
+  intros x s Hw HL. apply to_sre_nocap in HL.
+  destruct (compile_top_shape x) as (n2 & h & Hs & Hh & H0 & H1 & Hn1 & HF).
+  apply (Frag_good _ s x Hw) in HF. destruct HF as [_ [C _]].
+  apply Lat_whole in HL. destruct (C _ _ HL) as (q0 & -> & Hp).
+  exists 0. split.
+  - rewrite Hs. eapply path_step; [eapply step_eps1; [exact Hn1|reflexivity]|].
+    eapply path_trans; [exact Hp|]. eapply path_step; [eapply step_eps1; [exact H1|reflexivity]|apply path_refl].
+  - eexists. split; [exact H0|reflexivity].
+Qed.
+
+(** the hypotheses are satisfiable: ( * (/ "az")) ($ "01") (w/nocase (or #\x #\y)) on "ab01Y" *)
+Definition ex_x : xsre :=
+  XSeq (XStar true (XSeq (XChr (CsRange 97%N 122%N)) XEps))
+    (XSeq (XSub (XSeq (XStr [48%N; 49%N]) XEps))
+      (XSeq (XNoCase (XSeq (XAlt (XChr (CsChar 120%N)) (XAlt (XChr (CsChar 121%N)) XFail)) XEps)) XEps)).
+Definition ex_s : list char := [97%N; 98%N; 48%N; 49%N; 89%N].
+
+Example ex_satisfiable :
+  wf_x ex_x = true /\ L false (to_sre false ex_x) None ex_s None /\ accepts_path (compile_top ex_x) ex_s.
+Proof.
+  assert (wf_x ex_x = true) as W by (vm_compute; reflexivity).
+  assert (L false (to_sre false ex_x) None ex_s None) as HL by (apply matchb_spec; vm_compute; reflexivity).
+  split; [exact W|]. split; [exact HL|]. apply compile_top_language_implies_path; assumption.
+Qed.
+
+(* ------------------------------------------------------------------------------------------ *)
+(** * No state of a fragment is an accept state *)
+
+Section NoAcc.
+Variable T : list state.
+
+Definition NA (lo hi : nat) : Prop :=
+  forall q, lo <= q < hi -> forall st, nth_error T q = Some st -> s_kind st <> KAccept.
+
+Lemma NA_eps q n1 n2 : is_eps T q n1 n2 -> NA q (S q).
+Proof.
+  intros (st & Hn & Hk & _) q' Hq st' Hn'. assert (q' = q) as -> by lia. rewrite Hn in Hn'. injection Hn' as <-. congruence.
+Qed.
+Lemma NA_chr q ci cs nx : is_chr T q ci cs nx -> NA q (S q).
+Proof.
+  intros (st & Hn & Hk & _) q' Hq st' Hn'. assert (q' = q) as -> by lia. rewrite Hn in Hn'. injection Hn' as <-. congruence.
+Qed.
+Lemma NA_anc q k nx : is_anc T q k nx -> NA q (S q).
+Proof.
+  intros (st & Hn & Hk & _) q' Hq st' Hn'. assert (q' = q) as -> by lia. rewrite Hn in Hn'. injection Hn' as <-. congruence.
+Qed.
+Lemma NA_nil lo : NA lo lo.
+Proof. intros q Hq. lia. Qed.
+Lemma NA_app lo mid hi : NA lo mid -> NA mid hi -> NA lo hi.
+Proof. intros H1 H2 q Hq. destruct (lt_dec q mid); [apply H1|apply H2]; lia. Qed.
+
+Definition NAok (lo hi : nat) : Prop := lo <= hi /\ NA lo hi.
+
+Lemma NAok_one lo : NA lo (S lo) -> NAok lo (S lo).
+Proof. intros H. split; [lia|exact H]. Qed.
+Lemma NAok_app lo mid hi : NAok lo mid -> NAok mid hi -> NAok lo hi.
+Proof. intros [A1 B1] [A2 B2]. split; [lia|eapply NA_app; eauto]. Qed.
+Lemma NAok_nil lo : NAok lo lo.
+Proof. split; [lia|apply NA_nil]. Qed.
+
+Ltac na1 H := apply NAok_one; first [eapply NA_eps; exact H|eapply NA_chr; exact H|eapply NA_anc; exact H].
+
+Lemma FragChars_na l : forall ci next entry lo hi, FragChars T l ci next entry lo hi -> NAok lo hi.
+Proof.
+  induction l as [|c r IH]; intros ci next entry lo hi H; cbn [FragChars] in H.
+  - destruct H as [_ ->]. apply NAok_nil.
+  - destruct H as (n3 & H1 & H2 & H3 & _). apply IH in H3.
+    eapply NAok_app; [na1 H1|]. eapply NAok_app; [na1 H2|exact H3].
+Qed.
+
+Section ItemsNA.
+Variable B : bodyp.
+Hypothesis HB : forall nx en lo hi, B nx en lo hi -> NAok lo hi.
+
+Lemma ItemFrag_na it nx entry lo hi : ItemFrag T B it nx entry lo hi -> NAok lo hi.
+Proof.
+  destruct it as [sb|sb|]; cbn [ItemFrag].
+  - apply HB.
+  - intros (body & h & H1 & H2 & H3 & -> & _). apply HB in H2.
+    eapply NAok_app; [na1 H1|]. eapply NAok_app; [exact H2|na1 H3].
+  - intros (body & h & H1 & H2 & H3 & H4 & -> & _). apply HB in H3.
+    eapply NAok_app; [na1 H1|]. eapply NAok_app; [na1 H2|]. eapply NAok_app; [exact H3|na1 H4].
+Qed.
+
+Lemma FragItems_na items : forall next entry lo hi, FragItems T B items next entry lo hi -> NAok lo hi.
+Proof.
+  induction items as [|it rest IH]; intros next entry lo hi H; cbn [FragItems] in H.
+  - destruct H as [_ ->]. apply NAok_nil.
+  - destruct H as (n3 & mid & H1 & H2 & H3). apply ItemFrag_na in H2. apply IH in H3.
+    eapply NAok_app; [na1 H1|]. eapply NAok_app; eauto.
+Qed.
+End ItemsNA.
+
+Lemma Frag_na x : forall ci next entry lo hi, Frag T x ci next entry lo hi -> NAok lo hi.
+Proof.
+  induction x as [| |cs|l|a IHa b IHb|a IHa b IHb|a IHa|g a IHa|a IHa|g a IHa|g m n a IHa|a IHa|a IHa|a IHa|a IHa|k|a IHa|a IHa];
+    intros ci next entry lo hi H; cbn [Frag] in H.
+  - destruct H as [_ ->]. apply NAok_nil.
+  - destruct H as [_ ->]. apply NAok_nil.
+  - destruct H as (H & _ & ->). na1 H.
+  - eapply FragChars_na; exact H.
+  - destruct H as (n3 & mid & H1 & H2 & H3). apply IHa in H2. apply IHb in H3.
+    eapply NAok_app; [na1 H1|]. eapply NAok_app; eauto.
+  - destruct (is_cset (XAlt a b)).
+    + destruct H as (H & _ & ->). na1 H.
+    + destruct (is_fail b); [eapply IHa; exact H|].
+      destruct H as (n1 & n2 & mid & h & H1 & H2 & H3 & -> & _). apply IHa in H1. apply IHb in H2.
+      eapply NAok_app; [exact H1|]. eapply NAok_app; [exact H2|na1 H3].
+  - eapply IHa; exact H.
+  - destruct H as (body & h & H1 & H2 & H3 & -> & _). apply IHa in H2.
+    eapply NAok_app; [na1 H1|]. eapply NAok_app; [exact H2|na1 H3].
+  - destruct H as (H1 & H2). apply IHa in H2. eapply NAok_app; [na1 H1|exact H2].
+  - destruct H as (body & h & H1 & H2 & -> & _). apply IHa in H1. eapply NAok_app; [exact H1|na1 H2].
+  - eapply FragItems_na; [|exact H]. intros nx en lo' hi' HB. eapply IHa; exact HB.
+  - destruct H as [H|(n2 & h & H1 & H2 & H3 & -> & _)]; [eapply IHa; exact H|]. apply IHa in H2.
+    eapply NAok_app; [na1 H1|]. eapply NAok_app; [exact H2|na1 H3].
+  - destruct H as [H|(n2 & h & H1 & H2 & H3 & -> & _)]; [eapply IHa; exact H|]. apply IHa in H2.
+    eapply NAok_app; [na1 H1|]. eapply NAok_app; [exact H2|na1 H3].
+  - eapply IHa; exact H.
+  - destruct H as (nb & h & H1 & H2 & H3 & H4 & H5 & -> & _). apply IHa in H3.
+    eapply NAok_app; [na1 H1|]. eapply NAok_app; [na1 H2|]. eapply NAok_app; [exact H3|].
+    eapply NAok_app; [na1 H4|na1 H5].
+  - destruct H as (H & _ & ->). na1 H.
+  - eapply IHa; exact H.
+  - eapply IHa; exact H.
+Qed.
+End NoAcc.
+
+Lemma step_acc_inv T s q i c st :
+  nth_error T q = Some st -> s_kind st = KAccept -> step T s (q, i) c -> False.
+Proof.
+  intros Hn Hk Hs.
+  inversion Hs as [q0 i0 st0 q1 Hn0 Hg Hn1 | q0 i0 st0 q1 Hn0 Hg Hn1 | q0 i0 st0 ci0 cs0 ch q1 Hn0 Hk0 Hc Hm Hn1];
+    subst; rewrite Hn in Hn0; injection Hn0 as <-.
+  - unfold guard_ok in Hg. rewrite Hk in Hg. discriminate.
+  - unfold guard_ok in Hg. rewrite Hk in Hg. discriminate.
+  - congruence.
+Qed.
+
+(** every accepting path spells a string of the language: soundness of the graph *)
+Theorem compile_top_path_implies_language : forall x s, wf_x x = true ->
+  accepts_path (compile_top x) s -> L false (to_sre false x) None s None.
+Proof.
+  intros x s Hw (q & Hp & (st & Hq & Hk)). apply to_sre_nocap.
+  destruct (compile_top_shape x) as (n2 & h & Hs & Hh & H0 & H1 & Hn1 & HF).
+  destruct (Frag_na _ x _ _ _ _ _ HF) as [_ HNA].
+  apply (Frag_good _ s x Hw) in HF. destruct HF as [_ [_ S]].
+  rewrite Hs in Hp. apply path_pathn in Hp. destruct Hp as (k & Hp).
+  assert (HR : ~ Rg 2 h q).
+  { intros Hr. exact (HNA q Hr st Hq Hk). }
+  inversion Hp as [c0|k0 c0 c1 c2 Hs1 Hp1]; subst.
+  - destruct Hn1 as (st' & Hn' & Hk' & _). rewrite Hq in Hn'. injection Hn' as <-. congruence.
+  - destruct (step_eps_inv _ _ _ _ _ _ _ Hn1 Hs1) as (q1 & -> & [E|E]); [|discriminate E].
+    destruct (S k0 q1 0 q (length s) E ltac:(lia) Hp1 HR) as (j & k' & _ & Hj & HP & Hp2).
+    inversion Hp2 as [c0|k1 c0 c3 c4 Hs2 Hp3]; subst.
+    + destruct H1 as (st' & Hn' & Hk' & _). rewrite Hq in Hn'. injection Hn' as <-. congruence.
+    + destruct (step_eps_inv _ _ _ _ _ _ _ H1 Hs2) as (q2 & -> & [E2|E2]); [|discriminate E2].
+      injection E2 as <-.
+      inversion Hp3 as [c0|k2 c0 c5 c6 Hs3 Hp4]; subst.
+      * apply Lat_whole. exact HP.
+      * exfalso. eapply step_acc_inv; [exact H0|reflexivity|exact Hs3].
+Qed.
+
+(** * Main theorem *)
+Theorem compile_top_path_iff_language : forall x s, wf_x x = true ->
+  (accepts_path (compile_top x) s <-> L false (to_sre false x) None s None).
+Proof.
+  intros x s Hw. split.
+  - apply compile_top_path_implies_language. exact Hw.
+  - apply compile_top_language_implies_path. exact Hw.
+Qed.
+
+(* ------------------------------------------------------------------------------------------ *)
+(** * Search *)
+
+Lemma firstn_len_app {A} (a r : list A) : firstn (length a) (a ++ r) = a.
+Proof. induction a as [|x a IH]; cbn [length app firstn]; [destruct r; reflexivity|rewrite IH; reflexivity]. Qed.
+Lemma skipn_len_app {A} (a r : list A) : skipn (length a) (a ++ r) = r.
+Proof. induction a as [|x a IH]; cbn [length app skipn]; [reflexivity|exact IH]. Qed.
+
+Lemma Lat_in_lang (P : lang) s i j :
+  Lat s P i j <-> (i <= j /\ j <= length s) /\ P (lastc None (pre i s)) (mid i j s) (firstc (post j s) None).
+Proof.
+  unfold pre, mid, post. split.
+  - intros H. split; [apply (Lat_bounds s P i j H)|].
+    destruct H as (a & b & c & -> & -> & -> & H).
+    rewrite firstn_len_app, skipn_len_app. replace (length a + length b - length a) with (length b) by lia.
+    rewrite firstn_len_app. rewrite app_assoc, <- app_length, skipn_len_app. exact H.
+  - intros [[Hij Hj] H].
+    set (a := firstn i s) in *. set (b := firstn (j - i) (skipn i s)) in *.
+    set (c := skipn (j - i) (skipn i s)).
+    assert (E : s = a ++ b ++ c).
+    { unfold a, b, c. rewrite firstn_skipn. symmetry. apply firstn_skipn. }
+    assert (La : length a = i) by (apply firstn_length_le; lia).
+    assert (Lb : length b = j - i).
+    { apply firstn_length_le. rewrite skipn_length. lia. }
+    assert (Ec : skipn j s = c).
+    { rewrite E at 1. rewrite app_assoc. replace j with (length (a ++ b)) by (rewrite app_length; lia).
+      apply skipn_len_app. }
+    rewrite Ec in H. exists a, b, c. split; [exact E|]. split; [lia|]. split; [lia|exact H].
+Qed.
+
+Lemma compile_top_path_general x s i j : wf_x x = true -> i <= length s ->
+  ((exists q, path (n_tb (compile_top x)) s (n_start (compile_top x), i) (q, j) /\ is_accept (n_tb (compile_top x)) q) <->
+   Lat s (L false (to_sre true x)) i j).
+Proof.
+  intros Hw Hi.
+  destruct (compile_top_shape x) as (n2 & h & Hs & Hh & H0 & H1 & Hn1 & HF).
+  destruct (Frag_na _ x _ _ _ _ _ HF) as [_ HNA].
+  apply (Frag_good _ s x Hw) in HF. destruct HF as [_ [C S]].
+  rewrite Hs. split.
+  - intros (q & Hp & (st & Hq & Hk)).
+    apply path_pathn in Hp. destruct Hp as (k & Hp).
+    assert (HR : ~ Rg 2 h q).
+    { intros Hr. exact (HNA q Hr st Hq Hk). }
+    inversion Hp as [c0|k0 c0 c1 c2 Hs1 Hp1]; subst.
+    + destruct Hn1 as (st' & Hn' & Hk' & _). rewrite Hq in Hn'. injection Hn' as <-. congruence.
+    + destruct (step_eps_inv _ _ _ _ _ _ _ Hn1 Hs1) as (q1 & -> & [E|E]); [|discriminate E].
+      destruct (S k0 q1 i q j E Hi Hp1 HR) as (j0 & k' & _ & Hj & HP & Hp2).
+      inversion Hp2 as [c0|k1 c0 c3 c4 Hs2 Hp3]; subst.
+      * destruct H1 as (st' & Hn' & Hk' & _). rewrite Hq in Hn'. injection Hn' as <-. congruence.
+      * destruct (step_eps_inv _ _ _ _ _ _ _ H1 Hs2) as (q2 & -> & [E2|E2]); [|discriminate E2].
+        injection E2 as <-.
+        inversion Hp3 as [c0|k2 c0 c5 c6 Hs3 Hp4]; subst.
+        -- exact HP.
+        -- exfalso. eapply step_acc_inv; [exact H0|reflexivity|exact Hs3].
+  - intros HL. destruct (C _ _ HL) as (q0 & -> & Hp).
+    exists 0. split.
+    + eapply path_step; [eapply step_eps1; [exact Hn1|reflexivity]|].
+      eapply path_trans; [exact Hp|]. eapply path_step; [eapply step_eps1; [exact H1|reflexivity]|apply path_refl].
+    + eexists. split; [exact H0|reflexivity].
+Qed.
+
+Theorem compile_top_finds_iff_substring : forall x s, wf_x x = true ->
+  (finds_path (compile_top x) s <-> exists i j, in_lang false (to_sre false x) s i j).
+Proof.
+  intros x s Hw. unfold finds_path, in_lang. split.
+  - intros (i & j & q & Hi & Hp & Ha). exists i, j.
+    apply (Lat_in_lang (L false (to_sre false x))).
+    apply (Lat_ext s (L false (to_sre true x))); [intros; symmetry; apply to_sre_nocap|].
+    apply (compile_top_path_general x s i j Hw Hi). eauto.
+  - intros (i & j & H). apply (Lat_in_lang (L false (to_sre false x))) in H.
+    apply (Lat_ext s _ (L false (to_sre true x))) in H; [|intros; apply to_sre_nocap].
+    assert (Hi : i <= length s) by (apply Lat_bounds in H; lia).
+    apply (compile_top_path_general x s i j Hw Hi) in H. destruct H as (q & Hp & Ha).
+    exists i, j, q. auto.
+Qed.
+
